@@ -176,6 +176,20 @@ def kindOK : Ty → Payload → Bool
   | .set _, .sset _ _ => true
   | _, _ => false
 
+/-! ### outcome classes (for "the schedule decides nothing but error versus panic") -/
+
+/-- an outcome with error and panic merged into one failure -/
+inductive Cls (α : Type) where
+  | ok (a : α)
+  | fail
+  | unmodelled
+
+def cls {α} : Res α → Cls α
+  | .ok a => .ok a
+  | .err _ => .fail
+  | .panic _ => .fail
+  | .unmodelled => .unmodelled
+
 /-- no marker anywhere in the value -/
 def unmarkedDeep (v : Value) : Bool := !v.containsMarked
 
